@@ -595,7 +595,7 @@ private theorem tag_empty : (lookupProtobuf "").bind parseStructTag = none := by
 def exSkipFs : Fields := .cons "A" "" false .bool .nil
 
 theorem exSkip_codec : fieldsOf 1 exSkipFs = .cons 1 false false false .bool .nil := by
-  simp [exSkipFs, fieldsOf, tag_empty, fieldCodecOf, codecOf, isStructBase, baseTy]
+  simp [exSkipFs, fieldsOf, tag_empty, fieldCodecOf, codecOf, isStructBase, embBase, baseTy]
 
 theorem exSkip_lookup : lookupField (fieldsOf 1 exSkipFs) 2 = none := by rw [exSkip_codec]; rfl
 theorem exSkip_record : IsRecord 2 [0x10, 0x01] :=
